@@ -250,6 +250,12 @@ def _roundoff_through_discontinuity(src, new, feeds, scale, k, rel, abs_):
             if o and o in r1 and o in r2:
                 d = same_array(r1[o], r2[o], scale, k, rel, abs_) if not isinstance(r1[o], list) else None
                 if d:
+                    # (a pass-through node that the transformation removed hands its output NAME to its producer: judge that producer)
+                    prod1 = {x: n for n in src.model.graph.node for x in n.output}
+                    for _ in range(8):
+                        if node.op_type not in ("Identity", "Dropout") or o != node.output[0] or not node.input or node.input[0] not in prod1:
+                            break
+                        node = prod1[node.input[0]]
                     if node.op_type not in DISCONTINUOUS:
                         return None
                     inexact = False
@@ -258,7 +264,7 @@ def _roundoff_through_discontinuity(src, new, feeds, scale, k, rel, abs_):
                     prod2 = {x: n for n in new.model.graph.node for x in n.output}
                     n2 = prod2.get(o)
                     for _ in range(8):
-                        if n2 is None or n2.op_type != "Identity" or node.op_type == "Identity":
+                        if n2 is None or n2.op_type not in ("Identity", "Dropout") or not n2.input:
                             break
                         n2 = prod2.get(n2.input[0])
                     if n2 is None or n2.op_type != node.op_type or len(n2.input) != len(node.input):
